@@ -243,7 +243,7 @@ func c03Types() []protocoltypes.EventType {
 func TestVerif_C03_Envelopes(t *testing.T) {
 	acct := vacct.Get("C03")
 	types := c03Types()
-	vacct.RapidCheck(t, vacct.N(3, 300), func(rt *rapid.T) {
+	vacct.RapidCheck(t, vacct.N(3, 2000), func(rt *rapid.T) {
 		k := c03NewKeys()
 		var opened []struct {
 			et      protocoltypes.EventType
@@ -316,7 +316,7 @@ func TestVerif_C03_Envelopes(t *testing.T) {
 // subscribers or the state, the honest sentinel that follows does.
 func TestVerif_C03_Store(t *testing.T) {
 	acct := vacct.Get("C03")
-	vacct.RapidCheck(t, vacct.N(4, 250), func(rt *rapid.T) {
+	vacct.RapidCheck(t, vacct.N(4, 1200), func(rt *rapid.T) {
 		kind := rapid.SampledFrom([]string{"account", "multimember"}).Draw(rt, "kind")
 		w := vNewReplica(t, "W", nil)
 		defer w.close()
